@@ -13,6 +13,7 @@ ALLOWED_AXIOMS = set()   # none needed so far; stdlib axioms would be named here
 KERNEL_TB = [
     "Coq 8.16.1 kernel + vm_compute (no native_compute)",
     "no axioms declared; Print Assumptions output recorded per theorem in this file",
+    "thorough tier: coqchk -o re-checks props/<id>.vo and every file it depends on with the independent checker and reports the axioms (coverage.coqchk)",
 ]
 
 def impl_env(hashseed='0'):
@@ -308,6 +309,24 @@ class Check:
         self.cov['theorems'] = r['theorems']
         self.cov['print_assumptions'] = r['assumptions']
         self.cov['coq_build_s'] = r['build_s']
+        if self.tier == 'thorough':
+            # independent re-check of the compiled property file and everything it depends on (coqchk has its own kernel implementation)
+            t0 = time.time()
+            try:
+                with Lock():
+                    rc, out = sh(['timeout', '2400', 'coqchk', '-silent', '-o', '-Q', 'theories', 'Mx', '-Q', 'gen', 'MxGen', '-Q', 'props', 'MxProps', 'MxProps.' + self.pid], cwd=COQ, timeout=2500)
+            except Exception as e:
+                rc, out = 124, 'coqchk not run: %s' % e
+            m = re.search(r'\* Axioms:(.*?)\n\s*\n\* Constants', out, re.S)
+            axioms = re.sub(r'\s+', ' ', m.group(1)).strip() if m else None
+            self.cov['coqchk'] = dict(exit=rc, seconds=round(time.time() - t0, 1), axioms=axioms if axioms is not None else 'not reported', tail=[l for l in out.split('\n') if l.strip() and 'conda' not in l.lower()][-6:])
+            self.log('coqchk MxProps.%s: exit %s, axioms %s (%.0fs)' % (self.pid, rc, axioms, time.time() - t0))
+            if rc == 124:
+                self.log('coqchk timed out: recorded in the evidence, not counted as a broken obligation')
+            elif rc != 0 or axioms != '<none>':
+                self.broken = BuildBroken('coqchk rejects props/%s.vo or reports axioms: exit %s, axioms %s' % (self.pid, rc, axioms), out[-4000:])
+                self.cov['discharged'] = 0
+                return False
         return True
 
     def broken_summary(self):
